@@ -68,7 +68,7 @@ class CellGen:
     def pitch(self):
         r = self.rng
         l = r.choice(LETTERS)
-        n = r.choice([1, 1, 1, 2, 2, 3, 4])
+        n = r.choice([1, 1, 1, 2, 2, 3, 4, 5])        # five letters: octave 8 (`ccccc`) and octave -1 (`CCCCC`), the ends of the supported range
         return (l if r.random() < 0.6 else l.upper()) * n
 
     def note(self, dur_required=False):
@@ -387,6 +387,39 @@ def clef_split_doc(rng):
     return {'headers': hs, 'rows': rows, 'profile': 'clef-split'}
 
 
+def clef_echo_doc(rng):
+    """two or three **kern spines under DIFFERENT clefs (and a clef change later on) whose lines carry the SAME note / chord / rest text in
+    every spine, and the same texts again after the clef change: the agnostic cell of a text depends on the clef of its own spine and
+    on nothing else (added after seeded change C13_r5_2: a per-export memo keyed by the cell text)"""
+    import copy
+    cg = CellGen(rng, sig_weight=0.2)
+    n = rng.choice([2, 2, 3])
+    hs = ['**kern'] * n
+    rows = []
+    live = list(range(n))
+    clefs = rng.sample(CLEFS, n)
+
+    def row(rk, cells):
+        rows.append({'kind': 'cells', 'rk': rk, 'cells': cells, 'live': list(live)})
+    row('header', [{'k': 'header', 'text': h} for h in hs])
+    row('interp', [{'k': 'other', 'kind': 'clef', 'text': c} for c in clefs])
+    b = cg.bar(1)
+    row('bar', [dict(b) for _ in live])
+    shared = []
+    for _ in range(rng.randint(2, 4)):
+        c = cg.chord() if rng.random() < 0.5 else cg.note(dur_required=True)
+        shared.append(c)
+        row('data', [copy.deepcopy(c) for _ in live])
+    b = cg.bar(2)
+    row('bar', [dict(b) for _ in live])
+    c2 = rng.sample(CLEFS, n)
+    row('interp', [{'k': 'other', 'kind': 'clef', 'text': c} if rng.random() < 0.8 else dict(NULL_I) for c in c2])
+    for c in shared[:2] + [cg.chord()]:
+        row('data', [copy.deepcopy(c) for _ in live])
+    row('term', [op_cell('*-') for _ in live])
+    return {'headers': hs, 'rows': rows, 'profile': 'clef-echo'}
+
+
 def nested_split_doc(rng):
     """**kern spines, signatures in the preamble (the same kinds in every spine); in one measure a spine splits and one of the two
     branches ('first' / 'second'), both ('both') or none ('none') splits again; the sub-spines are re-joined before the next barline
@@ -698,4 +731,26 @@ def raw_variants(rng, adoc):
         for rk, row, cs in L[r:]:
             lines.append(list(cs) if rk == 'global' or not cs else list(cs) + [cs[-1]])
         out.append(('plus-unopened', _raw_text(lines)))
+    # (g) a whole spine ends early (`*-` in its column, the others go on with one cell less), with a global comment somewhere after it
+    # (the importer keeps the list of parents of the previous record across comment lines)
+    nsp = len(adoc['headers'])
+    cand = [i for i in cellrows[1:] if L[i][0] in ('data', 'bar', 'interp') and L[i][1] is not None and 'live' in L[i][1]
+            and len(set(L[i][1]['live'])) == len(L[i][1]['live']) == nsp]
+    if cand and nsp >= 2:
+        r = rng.choice(cand)
+        live = L[r][1]['live']
+        j = rng.choice([0, 0, len(live) - 1, rng.randrange(len(live))])
+        sp = live[j]
+        lines = [list(cs) for (_, _, cs) in L[:r]]
+        lines.append(['*-' if c == j else '*' for c in range(len(live))])
+        put_comment = rng.randint(0, 2)
+        for rk, row, cs in L[r:]:
+            if put_comment == 0:
+                lines.append(['!! after the early end'])
+            put_comment -= 1
+            if rk == 'global' or not cs or row is None or 'live' not in row:
+                lines.append(list(cs)); continue
+            lines.append([c for c, s in zip(cs, row['live']) if s != sp])
+        if all(len(x) > 0 for x in lines):
+            out.append(('early-end', _raw_text(lines)))
     return out
